@@ -9,8 +9,27 @@ def c15ShowFault : IxFault → String
   | .ub => "FAULT ub"
   | .fuel => "FAULT fuel"
 
+def c15Pairs : List String → Option (List (Bytes × Bytes))
+  | [] => some []
+  | k :: v :: t => match ofHexStr k, ofHexStr v, c15Pairs t with
+    | some k, some v, some r => some ((k, v) :: r)
+    | _, _, _ => none
+  | [_] => none
+
+/-- `std::string::operator<`: byte-wise (unsigned) lexicographic order -/
+def c15BytesLt : Bytes → Bytes → Bool
+  | [], [] => false
+  | [], _ :: _ => true
+  | _ :: _, [] => false
+  | a :: s, b :: t => a < b || (a == b && c15BytesLt s t)
+
+def c15Ascending : List Bytes → Bool
+  | a :: b :: t => c15BytesLt a b && c15Ascending (b :: t)
+  | _ => true
+
 /-- `bg <op> ; <op> ; …` over a growing family of baggages (state 0 = the empty baggage).
-    ops: `from <hdr>` | `set <i> <k> <v>` | `del <i> <k>` | `get <i> <k>` | `hdr <i>` | `rt <i>` | `enc <s>` | `dec <s>` -/
+    ops: `from <hdr>` | `set <i> <k> <v>` | `del <i> <k>` | `get <i> <k>` | `hdr <i>` | `rt <i>` | `enc <s>` | `dec <s>` |
+    `mk <v|s|l|d|m> <k> <v> …` (the container constructor) | `new <n>` | `dflt` | `all <i> <stop>` -/
 def c15BgOp (states : Array Baggage.Entries) : List String → Array Baggage.Entries × String
   | ["from", h] => match ofHexStr h with
     | some h => match Baggage.fromHeader h with
@@ -53,6 +72,21 @@ def c15BgOp (states : Array Baggage.Entries) : List String → Array Baggage.Ent
       | .ok (some d) => "d=" ++ hexArg d
       | .fault f => c15ShowFault f)
     | none => (states, "bad-op")
+  | ["new", n] =>
+    if n.length ≤ 4 ∧ n.all Char.isDigit ∧ n ≠ "" then (states.push [], showEntries []) else (states, "bad-op")
+  | ["dflt"] => (states.push [], showEntries [])
+  | ["all", i, n] => match i.toNat?, (if n.length ≤ 4 ∧ n.all Char.isDigit then n.toNat? else none) with
+    | some i, some n => match states[i]? with
+      | some s => let r := Baggage.visit s n; (states, "seen=" ++ showEntries r.1 ++ " ret=" ++ bool01 r.2)
+      | none => (states, "bad-op")
+    | _, _ => (states, "bad-op")
+  | "mk" :: variant :: kvs =>
+    match c15Pairs kvs with
+    | some ps =>
+      if variant = "v" ∨ variant = "s" ∨ variant = "l" ∨ variant = "d" ∨ (variant = "m" ∧ c15Ascending (ps.map (·.1))) then
+        let e := Baggage.ofPairs ps; (states.push e, showEntries e)
+      else (states, "bad-op")
+    | none => (states, "bad-op")
   | _ => (states, "bad-op")
 
 def handleBg (toks : List String) : String :=
@@ -66,10 +100,30 @@ def c15PropByName : String → Option (Propagator RCtx Carrier)
   | "b3m" => some b3Multi
   | "jg" => some jaeger
   | "bag" => some Propagation.baggage
+  | "noop" => some Propagation.noop
   | _ => none
 
+def c15FieldsByName : String → Option (List Bytes)
+  | "w3c" => some w3cFields
+  | "b3s" => some b3SingleFields
+  | "b3m" => some b3MultiFields
+  | "jg" => some jaegerFields
+  | "bag" => some baggageFields
+  | "noop" => some []
+  | _ => none
+
+def c15ShowFields (r : FieldsCb × Bool) : String :=
+  "f=[" ++ ",".intercalate (r.1.seen.map hexArg) ++ "] ret=" ++ bool01 r.2
+
+/-- the parts asked by hand, in order, until one of them reports false -/
+def c15FieldsByHand : List (List Bytes) → FieldsCb → FieldsCb × Bool
+  | [], cb => (cb, true)
+  | p :: t, cb => match fieldsOf p cb with
+    | (cb', true) => c15FieldsByHand t cb'
+    | (cb', false) => (cb', false)
+
 def c15ParsePlist (s : String) : Option (List (Propagator RCtx Carrier)) :=
-  if s = "-" then some [] else (s.splitOn ",").mapM c15PropByName
+  if s = "-" ∨ s = "@" then some [] else (s.splitOn ",").mapM c15PropByName
 
 def c15KnownNames : List Bytes :=
   [Gen.baggageHeader, Gen.b3CombinedHeader, traceparentName, tracestateName, Gen.jaegerHeader,
@@ -127,6 +181,13 @@ def handleComp : List String → String
       let car : Carrier := (names.zip [tpv, tsv, b3v, xtv, xsv, xfv, ubv, bgv]).filter fun e => !e.2.isEmpty
       c15ShowRCtx emptyCtx ((composite emptyCtx ps).extract car emptyCtx) ++ " parts=" ++
         c15ShowRCtx emptyCtx (ps.foldl (fun c p => p.extract car c) emptyCtx)
+    | _, _ => "bad-op"
+  | ["fields", pl, n] =>
+    match (if pl = "-" ∨ pl = "@" then some [] else (pl.splitOn ",").mapM c15FieldsByName),
+          (if n.length ≤ 3 ∧ n.all Char.isDigit then n.toNat? else none) with
+    | some parts, some stop =>
+      let cb : FieldsCb := { seen := [], calls := 0, stopAt := stop }
+      c15ShowFields (compositeFields parts cb) ++ " parts=" ++ c15ShowFields (c15FieldsByHand parts cb)
     | _, _ => "bad-op"
   | _ => "bad-op"
 
